@@ -322,7 +322,8 @@ func (d *dumper) tm(m *onet.TreeMarshal) string {
 // ---- running the (de)serialisation ------------------------------------------------------
 
 type rres struct {
-	Kind  string // ok | err | crash
+	Kind  string // ok | err | crash | broken
+	Cls   int    // err: error class; broken: 1 = sender side failed, 2 = nil tree without error
 	Tree  string
 	Links bool
 	GoEq  bool
@@ -334,7 +335,9 @@ func (r rres) coq() string {
 	case "ok":
 		return fmt.Sprintf("(ROk %s %s %s)", r.Tree, lib.Bool(r.Links), lib.Bool(r.GoEq))
 	case "err":
-		return "RErr"
+		return fmt.Sprintf("(RErr %d)", r.Cls)
+	case "broken":
+		return fmt.Sprintf("(RBroken %d)", r.Cls)
 	}
 	return "RCrash"
 }
@@ -347,11 +350,16 @@ func observe(d *dumper, sender *onet.Tree, givenRo *onet.Roster, f func() (*onet
 		}
 	}()
 	t, err := f()
+	if se, ok := err.(senderErr); ok {
+		// Marshal / BinaryMarshaler failed: not a refusal by the receiver
+		return rres{Kind: "broken", Cls: 1, Note: "sender side: " + se.err.Error()}
+	}
 	if err != nil {
-		return rres{Kind: "err", Note: errClass(err)}
+		cls, name := errClass(err)
+		return rres{Kind: "err", Cls: cls, Note: name}
 	}
 	if t == nil {
-		return rres{Kind: "crash", Note: "nil tree without error"}
+		return rres{Kind: "broken", Cls: 2, Note: "nil tree without error"}
 	}
 	s, links := d.tree(t, true)
 	if givenRo != nil && t.Roster != givenRo {
@@ -367,19 +375,56 @@ func observe(d *dumper, sender *onet.Tree, givenRo *onet.Roster, f func() (*onet
 	return rres{Kind: "ok", Tree: s, Links: links, GoEq: eq}
 }
 
-func errClass(err error) string {
+// senderErr marks an error of the serialising side.
+type senderErr struct{ err error }
+
+func (e senderErr) Error() string { return e.err.Error() }
+
+// errClass maps an error onto the classes of Corr/C06.v (rres). Only the messages of the
+// anchored code are recognised; every other message, including those of the codec, is
+// class 5 and is expected only where the bytes do not decode to a tree description.
+func errClass(err error) (int, string) {
 	s := err.Error()
 	switch {
 	case strings.Contains(s, "Not correct Roster-Id"):
-		return "roster-id"
-	case strings.Contains(s, "didn't find node"):
-		return "member"
+		return 1, "roster-id"
+	case strings.Contains(s, "tree description without nodes"):
+		return 2, "no-nodes"
+	case strings.Contains(s, "didn't find node in roster"):
+		return 3, "member"
+	case strings.Contains(s, "no Roster given"):
+		return 4, "no-roster"
+	case strings.Contains(s, "Didn't find TBMstruct"):
+		return 6, "outer-type"
+	case strings.Contains(s, "roster member without public key"):
+		return 7, "member-without-key"
 	case strings.Contains(s, "Didn't receive TreeMarshal"):
-		return "type"
-	case strings.Contains(s, "TBMstruct"):
-		return "outer-type"
+		return 5, "type"
 	}
-	return "other"
+	return 5, "other: " + s
+}
+
+// setupFailed reports a case whose input the implementation could not produce (clause 10).
+func setupFailed(in input, why int, what string) lib.Case {
+	return lib.Case{Coq: fmt.Sprintf("CSetup %d", why), Class: in.Kind + "-" + in.Name + "+setup-failed", Obs: what, Nontrivial: true,
+		Key: fmt.Sprintf("setup|%d|%v|%v|%s", why, in.Tree, in.Roster, in.Name)}
+}
+
+// expectWF says whether the construction of the sender's tree demands a well-formed tree
+// (NewTree or a generator over a roster of pairwise distinct servers, nothing set by hand).
+func expectWF(in input) bool {
+	t := in.Tree
+	if len(t.Idx) > 0 || t.NoAgg || t.NoRoster || len(in.Roster.Forge) > 0 {
+		return false
+	}
+	seen := map[int]bool{}
+	for _, m := range in.Roster.Members {
+		if seen[m] {
+			return false
+		}
+		seen[m] = true
+	}
+	return true
 }
 
 func rebuildRoster(s network.Suite, ro *onet.Roster, how string, rs rosterSpec) *onet.Roster {
@@ -495,25 +540,37 @@ func decodeOuter(d *dumper, s network.Suite, buf []byte) (lit string, kind strin
 	return fmt.Sprintf("(DSome (%s, %s))", inner, d.roster(ro)), "outer-" + ik
 }
 
+// safeBytes turns a panic of a serialiser into an error.
+func safeBytes(f func() ([]byte, error)) (b []byte, err error) {
+	defer func() {
+		if e := recover(); e != nil {
+			err = fmt.Errorf("panic: %v", e)
+		}
+	}()
+	return f()
+}
+
 func runPure(in input) lib.Case {
 	s := suiteOf(in.Suite)
 	d := newDumper()
 	ro := mkRoster(s, in.Roster)
 	if ro == nil {
-		return lib.Case{Discard: true, Class: in.Kind, Obs: "no roster"}
+		return setupFailed(in, 1, "NewRoster returned nil for a non-empty list of servers")
 	}
 	d.rosterBare(ro) // intern the roster first: numbering is a function of the input
 	var sender *onet.Tree
+	senderPanic := ""
 	func() {
 		defer func() {
 			if e := recover(); e != nil {
 				sender = nil
+				senderPanic = fmt.Sprint(e)
 			}
 		}()
 		sender = mkTree(ro, in.Tree)
 	}()
-	if sender == nil {
-		return lib.Case{Discard: true, Class: in.Kind, Obs: "generator produced no tree"}
+	if sender == nil || sender.Root == nil {
+		return setupFailed(in, 2, "building the sender's tree gave nothing: "+senderPanic)
 	}
 	senderLit, _ := d.tree(sender, false)
 	ro2 := rebuildRoster(s, ro, in.Rebuild, in.Roster)
@@ -536,15 +593,15 @@ func runPure(in input) lib.Case {
 			}()
 			tmObs = sender.MakeTreeMarshal()
 		}()
-		if tmCrash {
-			return lib.Case{Discard: true, Class: class, Obs: "MakeTreeMarshal panicked"}
+		if tmCrash || tmObs == nil {
+			return setupFailed(in, 3, "MakeTreeMarshal panicked or returned nil")
 		}
 		direct := observe(d, sender, ro2, func() (*onet.Tree, error) { return tmObs.MakeTree(ro2) })
 		var buf []byte
 		bytesR := observe(d, sender, ro2, func() (*onet.Tree, error) {
 			b, err := sender.Marshal()
 			if err != nil {
-				return nil, err
+				return nil, senderErr{err}
 			}
 			buf = b
 			return onet.NewTreeFromMarshal(s, b, ro2)
@@ -552,7 +609,7 @@ func runPure(in input) lib.Case {
 		binR := observe(d, sender, nil, func() (*onet.Tree, error) {
 			b, err := sender.BinaryMarshaler()
 			if err != nil {
-				return nil, err
+				return nil, senderErr{err}
 			}
 			t2 := &onet.Tree{}
 			if err := t2.BinaryUnmarshaler(s, b); err != nil {
@@ -562,11 +619,18 @@ func runPure(in input) lib.Case {
 		})
 		obs["direct"], obs["bytes"], obs["binary"] = direct.Kind+" "+direct.Note, bytesR.Kind+" "+bytesR.Note, binR.Kind+" "+binR.Note
 		obs["bytes_len"] = len(buf)
-		coq := fmt.Sprintf("CRound %s %s %s %s %s %s", senderLit, d.roster(ro2), d.tm(tmObs), direct.coq(), bytesR.coq(), binR.coq())
+		coq := fmt.Sprintf("CRound %s %s %s %s %s %s %s", lib.Bool(expectWF(in)), senderLit, d.roster(ro2), d.tm(tmObs), direct.coq(), bytesR.coq(), binR.coq())
 		return lib.Case{Coq: coq, Class: class + suffix, Obs: obs, Nontrivial: size > 1,
 			Key: fmt.Sprintf("%v|%v|%v|%s|%s", in.Tree, in.Roster, in.Rebuild, in.Suite, in.Name)}
 	case "make":
-		tm := sender.MakeTreeMarshal()
+		var tm *onet.TreeMarshal
+		func() {
+			defer func() { recover() }()
+			tm = sender.MakeTreeMarshal()
+		}()
+		if tm == nil || len(tm.Children) == 0 || tm.Children[0] == nil {
+			return setupFailed(in, 3, "MakeTreeMarshal panicked or gave a description without root element")
+		}
 		switch in.Desc {
 		case "empty":
 			tm.Children = nil
@@ -605,9 +669,9 @@ func runPure(in input) lib.Case {
 		return lib.Case{Coq: coq, Class: "make-" + in.Desc + "-" + in.Rebuild + suffix, Obs: obs, Nontrivial: true,
 			Key: fmt.Sprintf("%v|%v|%v|%s|%s", in.Tree, in.Roster, in.Rebuild, in.Suite, in.Desc)}
 	case "bytes":
-		buf, err := sender.Marshal()
+		buf, err := safeBytes(sender.Marshal)
 		if err != nil {
-			return lib.Case{Discard: true, Class: class, Obs: "marshal: " + err.Error()}
+			return setupFailed(in, 4, "Marshal: "+err.Error())
 		}
 		b := mutate(buf, in.Mut)
 		dec, kind := decodeTM(d, s, b)
@@ -616,9 +680,9 @@ func runPure(in input) lib.Case {
 		coq := fmt.Sprintf("CBytes %s %s %s", dec, d.roster(ro2), r.coq())
 		return lib.Case{Coq: coq, Class: "bytes-" + kind + suffix, Obs: obs, Nontrivial: true, Key: fmt.Sprintf("%x|%s", b, in.Rebuild)}
 	case "binary":
-		buf, err := sender.BinaryMarshaler()
+		buf, err := safeBytes(sender.BinaryMarshaler)
 		if err != nil {
-			return lib.Case{Discard: true, Class: class, Obs: "marshal: " + err.Error()}
+			return setupFailed(in, 5, "BinaryMarshaler: "+err.Error())
 		}
 		b := mutate(buf, in.Mut)
 		dec, kind := decodeOuter(d, s, b)
